@@ -57,6 +57,15 @@ func unmanagedProjection(d *mcisco.Device) string {
 		}
 	}
 	for _, l := range d.Lines {
+		if w := strings.Fields(l); len(w) > 2 && w[0] == "crypto" && w[1] == "map" {
+			// A managed crypto map may refer to a hand-made
+			// transform-set of equal content; only the map's own name
+			// decides whose line this is.
+			if marked(w[2]) {
+				b.WriteString("line " + l + "\n")
+			}
+			continue
+		}
 		if strings.Contains(l, "mgmt") || strings.HasPrefix(l, "snmp-server") || strings.HasPrefix(l, "ntp ") ||
 			strings.HasPrefix(l, "logging ") || strings.HasPrefix(l, "aaa-server") || marked(l) {
 			b.WriteString("line " + l + "\n")
